@@ -20,7 +20,7 @@ import (
 
 func init() {
 	vc.Register(&vc.Check{ID: "C07", Level: "exploration", Run: run, Replay: replay, QuickSec: 170, ThoroSec: 1500,
-		Rule: "(1) activeauth.ValidateActiveAuthSignature on responses produced by the independent signer: RSA moduli 1024/2048/3072/4096 and 1031/1279/2041 bits (bit length not a multiple of 8) x 5 trailers (SHA-1/224/256/384/512) x chip-chosen M1 {00.., FF.., pattern, ending ..BC, ending ..CC} x challenges {00.., FF.., pattern}; ECDSA on 11 curves x {plain r||s, DER} x challenges, hash by key size => accepted. For genuine cases: every single-bit flip of the signature (quick: all bits for 1024/2048-bit RSA and all EC, every 5th bit above), every single-bit flip of the challenge, the same response under another key of the same size/curve => rejected (invalid by construction). (2) challenge plumbing end to end: Reader.WithAAChallenge(c) => the chip saw exactly c and the evidence nonce is c; Verifier.WithAAChallenge(c') hard-fails iff c' != c for c'=c and all 64 one-bit neighbours, AA over RSA and ECDSA. distinct_nontrivial = distinct (key, trailer/format, M1 class, challenge, mutation class, verdict)",
+		Rule: "(1) activeauth.ValidateActiveAuthSignature on responses produced by the independent signer: RSA moduli 1024/2048/3072/4096 and 1031/1279/2041 bits (bit length not a multiple of 8) x 5 trailers (SHA-1/224/256/384/512) x chip-chosen M1 {00.., FF.., pattern, ending ..BC, ending ..CC} x challenges {00.., FF.., pattern}; ECDSA on 11 curves x {plain r||s, DER} x challenges, hash by key size => accepted. For genuine cases: every single-bit flip of the signature (quick: all bits for 1024/2048-bit RSA and all EC, every 5th bit above), every single-bit flip of the challenge, the same response under another key of the same size/curve => rejected (invalid by construction). (2) challenge plumbing end to end: Reader.WithAAChallenge(c) => the chip saw exactly c and the evidence nonce is c; Verifier.WithAAChallenge(c') hard-fails iff c' != c for c'=c and all 64 one-bit neighbours, also when the evidence is otherwise unverifiable (algorithm changed, signature corrupted / oversize, DG15 removed), AA over RSA and ECDSA. distinct_nontrivial = distinct (key, trailer/format, M1 class, challenge, mutation class, verdict)",
 		Assume: []string{"independent ISO/IEC 9796-2 scheme 1 signer and deterministic ECDSA signer of refchip/refpki (self-tested against crypto/rsa, crypto/ecdsa)", "for moduli whose bit length is not a multiple of 8 only the byte-aligned representative is demanded to verify", "signature forgery not searched; ECDSA malleability (r, n-s) is a valid signature and not generated"}})
 }
 
@@ -372,6 +372,50 @@ plumbing:
 						c.Violation(sec4, "plumbing/verifier-accepts-other-challenge", fmt.Sprintf("offline verification with challenge %x (recorded %x) does not hard-fail", cp, cval), rec, nil)
 					}
 					c.Outcome(sec4, map[bool]string{true: "hard-error", false: "verified"}[hard])
+				}
+				// the hard failure on a differing nonce must not depend on the evidence being otherwise verifiable
+				ev := r.Doc.Session.ActiveAuthResult.Evidence
+				origAlg, origSig, origDg15 := ev.Algorithm, ev.Signature, r.Doc.Document.Mf.Lds1.Dg15
+				for _, tamper := range []string{"algorithm-changed", "signature-corrupted", "dg15-removed", "signature-oversize"} {
+					switch tamper {
+					case "algorithm-changed":
+						ev.Algorithm = []int{1, 2, 840, 113549, 1, 1, 10}
+					case "signature-corrupted":
+						ev.Signature = append(bytes.Clone(origSig[:len(origSig)-1]), origSig[len(origSig)-1]^1)
+					case "dg15-removed":
+						r.Doc.Document.Mf.Lds1.Dg15 = nil
+					case "signature-oversize":
+						ev.Signature = bytes.Repeat([]byte{0x30}, 5000)
+					}
+					b2, err := r.Doc.ToCbor()
+					ev.Algorithm, ev.Signature, r.Doc.Document.Mf.Lds1.Dg15 = origAlg, origSig, origDg15
+					if err != nil {
+						continue
+					}
+					for _, other := range [][]byte{{0xFF, 0xFF, 0xFF, 0xFF, 0xFF, 0xFF, 0xFF, 0xFE}, func() []byte { x := bytes.Clone(cval); x[7] ^= 1; return x }()} {
+						if bytes.Equal(other, cval) {
+							continue
+						}
+						v := e2e.Verify(p.Store, b2, other)
+						c.Eval(1)
+						switch {
+						case v.Panic != nil:
+							c.Violation(sec4, "plumbing/verifier-panic", fmt.Sprint(v.Panic), rec, nil)
+						case v.Err == nil && v.Doc != nil:
+							c.Violation(sec4, "plumbing/no-hard-failure-on-differing-nonce-when-evidence-is-"+tamper, fmt.Sprintf("supplied challenge %x differs from the recorded nonce %x but Verify returns no error (evidence %s)", other, cval, tamper), rec, nil)
+							c.Outcome(sec4, "NOT-hard-error")
+						default:
+							c.Outcome(sec4, "hard-error")
+						}
+					}
+					// with the matching challenge a tampered bundle must at least not verify
+					v := e2e.Verify(p.Store, b2, cval)
+					c.Eval(1)
+					if v.Panic != nil {
+						c.Violation(sec4, "plumbing/verifier-panic", fmt.Sprint(v.Panic), rec, nil)
+					} else if v.Doc != nil && v.Doc.Session.ActiveAuthResult != nil && v.Doc.Session.ActiveAuthResult.Success {
+						c.Violation(sec4, "plumbing/tampered-evidence-verifies/"+tamper, "AA verdict successful for tampered evidence", rec, nil)
+					}
 				}
 				c.Distinct(fmt.Sprintf("plumbing/%v/%v/%s", aa, pace, ch))
 			}
